@@ -85,10 +85,12 @@ type Ctx struct {
 	nvar  int
 	True  *Term
 	False *Term
+	c64   map[uint64]*Term
+	c8    [256]*Term
 }
 
 func NewCtx() *Ctx {
-	c := &Ctx{tab: map[tkey]*Term{}}
+	c := &Ctx{tab: map[tkey]*Term{}, c64: map[uint64]*Term{}}
 	c.True = c.mk(&Term{Op: OpConst, W: 0, Val: 1})
 	c.False = c.mk(&Term{Op: OpConst, W: 0, Val: 0})
 	return c
@@ -150,7 +152,24 @@ func (c *Ctx) Const(v uint64, w int) *Term {
 		}
 		return c.False
 	}
-	return c.mk(&Term{Op: OpConst, W: w, Val: v & mask(w)})
+	v &= mask(w)
+	if w == 64 {
+		if t, ok := c.c64[v]; ok {
+			return t
+		}
+		t := c.mk(&Term{Op: OpConst, W: w, Val: v})
+		c.c64[v] = t
+		return t
+	}
+	if w == 8 {
+		if t := c.c8[v]; t != nil {
+			return t
+		}
+		t := c.mk(&Term{Op: OpConst, W: w, Val: v})
+		c.c8[v] = t
+		return t
+	}
+	return c.mk(&Term{Op: OpConst, W: w, Val: v})
 }
 
 func (c *Ctx) Bool(b bool) *Term {
